@@ -38,7 +38,7 @@ def build(kind, base):
 
 
 # --------------------------------------------------------------------------- one attempt in a child process
-def attempt(kind, phase, fault, base, crash_at=None, exc_at=None, crash_after=None):
+def attempt(kind, phase, fault, base, crash_at=None, exc_at=None, crash_after=None, retry=True):
     """Request the value of t once under the recorder.  Returns a dict (unless the process is made to die)."""
     chain = build(kind, base)
     t = chain['g:t']
@@ -77,7 +77,7 @@ def attempt(kind, phase, fault, base, crash_at=None, exc_at=None, crash_after=No
     out['snap_bytes'] = rec.snap
     out['listing'] = sorted(str(q.relative_to(base)) for q in Path(base).rglob('*'))
     # same-process retry after an exception: "requesting the value again always recovers"
-    if out['exc'] is not None:
+    if out['exc'] is not None and retry:
         gen.RUNLOG.clear()
         gen.CTRL['gen'] = 4
         try:
